@@ -44,7 +44,7 @@ def contracts():
             for rf in forms:
                 mcases.append(('%s,%s,%s' % (op, lf, rf), [opreq, forms[lf].format('self.lhs'), forms[rf].format('self.rhs')]))
     cs.append(Equiv('matching._MExpr.glomit', 'ref_match.mexpr_ref', args={'self': 'inst:matching._MExpr', 'target': 'ref', 'scope': 'chainmap'},
-                    cases=mcases))
+                    cases=mcases, raise_only_cases=['other']))
     cs.append(Equiv('matching.Switch.glomit', 'ref_match.switch_ref', args={'self': 'inst:matching.Switch', 'target': 'ref', 'scope': 'chainmap'},
                     loops={1: dict(vars=[('self', 'inst:matching.Switch'), ('target', 'ref'), ('scope', 'chainmap')])}))
     import itertools
